@@ -30,7 +30,7 @@ def ncf2cloud_rain(ncffile, outpath, tflag='TFLAG'):
                 buf = np.array((vals.size) * 4, ndmin=1).astype('>i')
                 buf = buf.tobytes()
                 outfile.write(buf)
-                vals.tofile(outfile)
+                np.ma.filled(vals).tofile(outfile)
                 outfile.write(buf)
 
     outfile.flush()
